@@ -20,6 +20,7 @@ long long t1(_Bool b1, _Bool b2, char c1, char c2, signed char sc1, unsigned cha
   ll1 = EM < 1u;
   ll1 = 0x100000001u + 0;
   ll1 = ~0xFFFFFFFFFFFFFFFF <= 0;
+  ll1 = 62 - ((8L >= ~145LLu) + 8u);
   ll1 = (signed char)1 + (unsigned char)214;
   ll1 = (short)1 + (unsigned short)65000;
   ll1 = (unsigned char)1 < (signed char)254;
